@@ -29,6 +29,8 @@ def run(ctx):
     ctx.rule("R1.5", "redo-unlocked re-runs the decision for the primary target after building the uncertain dependencies")
     ctx.rule("R1.6", "BuildJob::start reaches start_self / start_deps_unlocked only through the callback verdict; Clean reaches neither")
     dirt.inspected_clean_reasons(ctx, "R1.1")
+    from rules.C05 import failed_first
+    failed_first(ctx, "R1.1")
     dirt.nonclean_propagates(ctx, "R1.2")
 
     # ---- R1.3
